@@ -33,7 +33,7 @@ MUTATING = {"update", "append", "add", "extend", "setdefault", "pop", "clear", "
 def run(ctx):
     repo = ctx.repo
     res = Result(PROP)
-    res.rules = ["E-TYPE", "E-REJECT", "E-DIR", "E-FOOT", "E-FIRST", "E-ALIAS", "E-LOOPALIAS"]
+    res.rules = ["E-TYPE", "E-REJECT", "E-DIR", "E-FOOT", "E-FIRST", "E-ALIAS", "E-LOOPALIAS", "Q-ORDER", "Q-FLAG", "Q-COPY"]
     res.explanation = (
         "Narrow claim. Raise sites of the three class bodies are classified by their guard and the raised class is "
         "resolved; removals keyed by parameters are checked for a dominating membership test or a converting handler; "
@@ -71,6 +71,16 @@ def run(ctx):
         check_foot(repo, eng, res)
         check_clear_update(repo, eng, res)
         check_merge_first(repo, res)
+        # cleanup(in_place=True) is an edit of the receiver with a documented effect per flag (no isolated nodes, no
+        # singleton edges, ...): the order and guards of its steps (rules of C19, whose text names cleanup) are
+        # checked here as well
+        from .c19_derived import check_cleanup
+
+        for cname in CORE_CLASSES:
+            ci = repo.get_class(cname)
+            m = ci.methods.get("cleanup")
+            if m is not None:
+                check_cleanup(repo, res, m, cname, prop=PROP)
         from .common import check_dead_params
 
         nd = check_dead_params(res, PROP, "E-ALIAS", [m for cn in CORE_CLASSES for m in repo.get_class(cn).methods.values()], "what the method does or returns")
